@@ -338,6 +338,18 @@ def run_edges(ctx):
                 for a, b in (("00:00:00", "24:00:00"), ("00:00", "24:00"), ("00:00:00", "24:00:01"), ("00:00", "23:60"), ("T00:00:00", "T24:00:00")):
                     if a in base:
                         judge_parse(ctx, "LocalDateTime", p, pt, "", base.replace(a, b), "hour-24-edge")
+    # thousands of distinct pattern texts through one shared read-only culture, with rejected texts in between: every valid one still creates
+    for nm in ("en-GB", "fr-FR"):
+        try:
+            shared = CultureInfo.get_culture_info(nm)
+        except Exception as e:  # noqa: BLE001
+            ctx.exc(e); continue
+        LTc = G.pattern_class("LocalTime")
+        for k in range(4600 if ctx.tier == "quick" else 9000):
+            if k % 900 == 0:
+                for bad in ("HH:mm'unterminated", "HH:mm\\", "%%", "HH" * 3):
+                    judge_create(ctx, "LocalTime", LTc, bad, shared, "cache-run")
+            judge_create(ctx, "LocalTime", LTc, f"HH:mm:ss' #{k}'", shared, "cache-run")
     # patterns that leave fields to the template, with templates whose fields do not fit every value the text can name
     from pyoda_time import AnnualDate, LocalTime
     AD = G.pattern_class("AnnualDate"); LT = G.pattern_class("LocalTime")
